@@ -91,6 +91,22 @@ def run(ck: Check):
                 ck.disagree("soft Walsh output thresholded at 1/2 differs from the eval output",
                             {"w": [str(x) for x in w], "tau": tau}, expected=exp, observed=got, signature={"layer": "dense", "what": "soft"})
         ck.count("soft_threshold_checks", len(vs))
+        # ... and numerically the logistic of form / CURRENT temperature (binary32 evaluation: 1e-5 absolute)
+        worst = 0.0
+        for i, (w, pat, e) in enumerate(vs):
+            if abs(e) > 10:
+                continue
+            for ci, (a, b) in enumerate(corners):
+                A, B = 2 * a - 1, 2 * b - 1
+                form = float(w[0] + w[1] * A + w[2] * B + w[3] * A * B)
+                want = 1.0 / (1.0 + np.exp(-form / tau))
+                worst = max(worst, abs(float(ys[i][ci]) - want))
+                if abs(float(ys[i][ci]) - want) > 1e-5:
+                    ck.disagree("dense Walsh training output is not the logistic of form / temperature",
+                                {"w": [str(x) for x in w], "tau": tau, "corner": [a, b]}, expected=want, observed=float(ys[i][ci]),
+                                signature={"layer": "dense", "what": "soft-value"})
+                    break
+        ck.count("soft_value_checks", len(vs))
     # compiled dense: groups of one neuron -> count = output bit
     for W in ((8, 64) if ck.tier == "quick" else (8, 16, 32, 64)):
         m = torch.nn.Sequential(d, GroupSum(n, device="cpu"))
@@ -144,6 +160,40 @@ def run(ck: Check):
             if [gc[c][i] for c in range(4)] != [int(v) for v in exp]:
                 ck.disagree("compiled Walsh conv kernel differs from the sign pattern", case, expected=exp,
                             observed=[gc[c][i] for c in range(4)], signature={"layer": "conv", "what": "compiled"})
+    # ---- conv, training mode, temperature assigned AFTER construction: depth-0 trees, output = logistic(form / temperature)
+    sub = [v for v in vs if abs(v[2]) <= 7][:54]
+    K = len(sub)
+    conv0 = LogicConv2d(in_dim=(2, 2), device="cpu", channels=1, num_kernels=K, tree_depth=0, receptive_field_size=2,
+                        parametrization="walsh", weight_init="random", temperature=1.0)
+    conv0.kernel_pairs = (torch.tensor([[[0, 0, 0]]] * K), torch.tensor([[[0, 1, 0]]] * K))
+    conv0.indices = conv0.get_indices_from_kernel_pairs(conv0.kernel_pairs)
+    with torch.no_grad():
+        conv0.tree_weights[0][0].copy_(torch.tensor([[float(x) for x in w] for w, _, _ in sub]))
+    x0 = torch.zeros(4, 1, 2, 2)
+    for ci, (a, b) in enumerate(corners):
+        x0[ci, 0, 0, 0] = a
+        x0[ci, 0, 0, 1] = b
+    conv0.train()
+    with torch.no_grad():
+        conv0(x0)                      # one forward at the construction-time temperature first
+    for tau in (2.0, 0.25, 0.7):
+        conv0.temperature = tau
+        with torch.no_grad():
+            yc0 = conv0(x0).reshape(4, K).T
+        for i, (w, pat, e) in enumerate(sub):
+            for ci, (a, b) in enumerate(corners):
+                A, B = 2 * a - 1, 2 * b - 1
+                form = float(w[0] + w[1] * A + w[2] * B + w[3] * A * B)
+                want = 1.0 / (1.0 + np.exp(-form / tau))
+                if abs(float(yc0[i][ci]) - want) > 1e-5:
+                    ck.disagree("conv Walsh training output is not the logistic of form / current temperature",
+                                {"w": [str(x) for x in w], "tau": tau, "corner": [a, b], "temperature_set_after_construction": True},
+                                expected=want, observed=float(yc0[i][ci]), signature={"layer": "conv", "what": "soft-value"})
+                    break
+            else:
+                continue
+            break
+        ck.count("soft_value_checks", K)
     # ---- parameter-update protocols (reported id / eval / compiled follow the CURRENT coefficients)
     protocols.dense_protocol(ck, "walsh", "")
     protocols.conv_protocol(ck, "walsh", "")
